@@ -83,7 +83,7 @@ package mysql
 //@ define nodeInv(n *Node) = n.config != nil && n.logger != nil
 //@ define registryInv(c *Cluster) = c.haNodes != nil && c.cascadeNodes != nil && c.haNodes != c.cascadeNodes && (forall k string :: has(c.haNodes, k) ==> c.haNodes[k] != nil && alive(c.haNodes[k]) && c.haNodes[k].host == k && nodeInv(c.haNodes[k])) && (forall k string :: has(c.cascadeNodes, k) ==> c.cascadeNodes[k] != nil && alive(c.cascadeNodes[k]) && c.cascadeNodes[k].host == k && nodeInv(c.cascadeNodes[k]))
 //@ define clusterOK(c *Cluster) = c.config != nil && c.logger != nil && c.dcs != nil && c.local != nil && alive(c.local) && nodeInv(c.local) && registryInv(c)
-//@ typeinv *mysql.Node nodeInv init mysql.NewNode
+//@ typeinv *mysql.Node nodeInv init mysql.NewNode, mysql.NewNodeWithDB
 //@ typeinv *mysql.Cluster clusterOK init mysql.NewCluster, (*mysql.Cluster).registerLocalNode, (*mysql.Cluster).VerifSetLocal
 
 // ---- C20: the host registry as seen by the manager ----------------------------------------------------------
